@@ -55,12 +55,14 @@ class Thr(object):
 class SchedLock(object):
   """Scheduler-aware replacement for threading.Lock (non-reentrant)."""
 
-  def __init__(self, sched, name='lock'):
+  def __init__(self, sched, name='lock', reentrant=False):
     self.sched = sched
     self.name = name
     self.owner = None
     self.acquisitions = 0
     self.acq_by = {}
+    self.reentrant = reentrant
+    self.depth = 0
 
   def acquire(self, blocking=True, timeout=-1):
     s = self.sched
@@ -70,18 +72,26 @@ class SchedLock(object):
         raise core.HarnessError('SchedLock %s held during setup' % self.name)
       self.owner = 'setup'
       return True
+    if self.reentrant and self.owner == t.id:
+      self.depth += 1
+      return True
     s.point(('acquire', self.name))
     if self.owner is not None:
       if not blocking:
         return False
       s.block(lambda: self.owner is None, ('blocked', self.name))
     self.owner = t.id
+    self.depth = 1
     self.acquisitions += 1
     self.acq_by[t.id] = self.acq_by.get(t.id, 0) + 1
     s.log.append(('acq', t.id, self.name))
     return True
 
   def release(self):
+    if self.reentrant and self.depth > 1:
+      self.depth -= 1
+      return
+    self.depth = 0
     self.owner = None
     t = self.sched.me()
     if t is not None:
@@ -97,6 +107,26 @@ class SchedLock(object):
   def __exit__(self, *a):
     self.release()
     return False
+
+
+def replace_locks(obj, sched, prefer='lock'):
+  """Replace every real threading lock found among obj's instance attributes by a scheduler-aware one
+  (a real lock held by a parked thread would hang the explorer).  Returns the lock named `prefer` if
+  there is one, else the first replaced, else a fresh SchedLock installed under `prefer`."""
+  import threading
+  lock_types = (type(threading.Lock()), type(threading.RLock()))
+  found = {}
+  for k, v in list(vars(obj).items()):
+    if isinstance(v, lock_types):
+      found[k] = SchedLock(sched, k, reentrant=isinstance(v, lock_types[1]) and lock_types[0] is not lock_types[1])
+      setattr(obj, k, found[k])
+  if prefer in found:
+    return found[prefer]
+  if found:
+    return found[sorted(found)[0]]
+  lk = SchedLock(sched, prefer)
+  setattr(obj, prefer, lk)
+  return lk
 
 
 class Scheduler(object):
